@@ -675,11 +675,13 @@ class C03(Prop):
             "answer, authority, additional (OPT skipped and included) sections and the EDNS options calling every accessor on every record; "
             "then dump the bytes. Compared with the model and with expectations computed by an independent reference decoder. "
             "Non-trivial: packet has at least one record besides the question; distinct = distinct packet.")
-    strength = ("proved (unbounded): on every packet the parser accepts, skip_name agrees with the validator on every name "
-                "(skip_name_agrees), each accepted record is skipped to exactly the offset the parser reached, and a full "
-                "walk of a section (OPT included) visits exactly the announced number of records without a Panic outcome "
-                "(walk_section_total). The accessor values (names, TTLs, data) are tied to RFC 1035 decoding by the correspondence and "
-                "the reference-decoder oracle, not yet by a theorem: C03_full_statement keeps the full claim visible.")
+    strength = ("proved (unbounded): on every packet the parser accepts, skip_name agrees with the validator on every name, each accepted "
+                "record is skipped to exactly the offset the parser reached, and the walk of each record section with OPT included visits "
+                "exactly the records that lie back to back in that section under the declarative reading of Spec/RecordSpec.v, in order, "
+                "returning on each the offset, raw owner name and its length, lower-cased dotted owner name, type, class, TTL, data length "
+                "and data of that reading, which is a function of the bytes; no Panic outcome (C03_walk_values, C03_reading_unique, "
+                "C03_copy_name_labels, C03_name_text, C03_skip_name_agrees, C03_walk_including_opt_total). PARTIAL: the OPT-skipping walk, "
+                "the question cursor and the EDNS option cursor are decided each run by the correspondence and the reference-decoder oracle.")
     assumptions = ["bytes < 256"]
 
     def gen(self, rng, tier):
